@@ -351,6 +351,10 @@ pub fn run_line(line: &str) -> String {
             res_bytes(guard(|| Compress::compress(&p)))
         }
         ("rename", 5) => op_rename(w[1], w[2], w[3], w[4]),
+        ("errslots", _) if w.len() >= 2 => crate::threads::run_errslots(&w[1..]),
+        ("session", _) if w.len() >= 2 => crate::threads::run_session(&w[1..]),
+        ("cabic", _) if w.len() >= 2 => format!("{} @@ {}", crate::cabi::run_cabi_c(w[1], &w[2..]), crate::cabi::run_cabi(w[1], &w[2..])),
+        ("cabi", _) if w.len() >= 2 => crate::cabi::run_cabi(w[1], &w[2..]),
         ("script", _) if w.len() >= 2 => crate::script::run_script(w[1], &w[2..]),
         ("synth", 2) => {
             let t = match unhex(w[1]) { Some(p) => p, None => return "bad-hex".into() };
@@ -383,6 +387,17 @@ pub fn run_line(line: &str) -> String {
                 _ => String::new(),
             };
             format!("{}{}", res_bytes(first), rt)
+        }
+        ("steps", 2) => {
+            let p = match unhex(w[1]) { Some(p) => p, None => return "bad-hex".into() };
+            dnssector::verif_hooks::reset();
+            let r = guard(|| DNSSector::new(p).and_then(|s| s.parse()).map(|_| ()));
+            let n = dnssector::verif_hooks::get();
+            match r {
+                Ok(Ok(())) => format!("ok steps={}", n),
+                Ok(Err(e)) => format!("err {} steps={}", err_kind(&e), n),
+                Err(()) => format!("panic steps={}", n),
+            }
         }
         ("iter", 2) => with_parsed(w[1], |pp| iter_dump(pp)),
         ("summary", 2) => with_parsed(w[1], |pp| summary_dump(pp)),
